@@ -40,10 +40,13 @@ Judge(r) ==
          Gen([idx |-> r.idx, ent |-> IF WellFormed(r.idx) THEN Decode(r.idx).ent ELSE <<>>])
     [] r.k = "gen_seed" ->     \* r.s, r.p: NFKD forms of sentence and passphrase (oracle facts); r.praw: passphrase as given
          Gen([term |-> SeedTerm(r.s, r.p), dev |-> SeedTerm(r.s, r.praw), mkey |-> AsciiBitcoinSeed])
-    [] r.k = "table" ->        \* r.lang, r.digest: SHA-256 of the bundled list file, r.n words, r.distinct, r.nfkd
+    [] r.k = "gen_facts" -> Gen(ListFacts)
+    [] r.k = "table" ->        \* r.lang, r.digest: SHA-256 of the bundled list file; r.words: its lines (code points, white
+                               \* space at the ends removed as every reader does), r.nfkd: their NFKD forms (oracle fact)
          IF r.lang \notin Languages THEN Bad("wordlist-not-pinned-in-spec", "", "")
+         ELSE IF ListDefect(r.lang, r.words) # "" THEN Bad("wordlist-" \o ListDefect(r.lang, r.words), "", "")
+         ELSE IF r.words # r.nfkd THEN Bad("wordlist-not-in-nfkd", "", "")
          ELSE IF r.digest # ListDigest[r.lang] THEN Bad("wordlist-differs-from-pinned-list", "", ListDigest[r.lang])
-         ELSE IF r.n # ListSize \/ r.distinct # ListSize \/ ~r.nfkd THEN Bad("wordlist-malformed", "", "")
          ELSE Ok
     [] r.k = "vector" ->       \* r.i, r.h: digest of the vector's entropy, r.widx: list positions of the vector's words
          IF Indices(TrezorVectors[r.i].ent, r.h) = r.widx THEN Ok
